@@ -22,7 +22,7 @@ from vlib import advexec, gen, runner, storetrace
 
 PROPERTY = "C06"
 LEVEL = "fault_enumeration"
-TIMEOUT = {"quick": 900, "thorough": 5400}
+TIMEOUT = {"quick": 1500, "thorough": 7200}
 RULE = (
     "for each recipe (vlib.gen.Gen incl. cubed.random arrays, multi-output ops, rechunks, reductions) one finalized plan "
     "is executed under the reference schedule and under adversarial schedules: {reversed, shuffled} x {no duplicate, "
